@@ -195,6 +195,36 @@ pub fn sub_record(r: &mut Rng) -> Value {
         h.extend(std::iter::repeat(filler).take(r.below(4)));
         return json!({"k": "sub", "n": n, "h": h, "obs": sub_obs(&n, &h)});
     }
+    if n.len() >= 2 && r.chance(1, 6) {
+        // stray family: the haystack is barely longer than the needle -- too short for a vector prefilter whose pair
+        // offsets lie near the needle's end, so the scalar rarest-byte fallback runs -- and starts with stray copies of
+        // the needle's rarest bytes (candidates that would lie before the haystack start)
+        while n.len() < 33 {
+            let x = n.clone();
+            n.extend(x);
+        }
+        n.truncate(33 + r.below(40));
+        let l = n.len();
+        let (q, z) = ([b'Q', b'Z', 0xF7][r.below(3)], [b'q', b'z', 0xF8][r.below(3)]);
+        let p1 = l - 1 - r.below(l.min(15));
+        n[p1] = q;
+        let p2 = r.below(l);
+        if p2 != p1 {
+            n[p2] = z;
+        }
+        let filler = [b'#', b'-', 0x00][r.below(3)];
+        let mut h = Vec::new();
+        for _ in 0..(1 + r.below(12)) {
+            h.push(match r.below(4) {
+                0 | 1 => q,
+                2 => z,
+                _ => filler,
+            });
+        }
+        h.extend_from_slice(&n);
+        h.extend(std::iter::repeat(filler).take(r.below(4)));
+        return json!({"k": "sub", "n": n, "h": h, "obs": sub_obs(&n, &h)});
+    }
     let h = structured_haystack(r, &n);
     json!({"k": "sub", "n": n, "h": h, "obs": sub_obs(&n, &h)})
 }
@@ -221,6 +251,13 @@ pub fn sub_obs(n: &[u8], h: &[u8]) -> Vec<Value> {
     o.push(obs("FinderRev::new+rfind", "rfind", json!(opt_to_i(x)), allocs() - a0, false));
     let x = memmem::FinderBuilder::new().prefilter(memmem::Prefilter::None).build_forward(&n).find(&h);
     o.push(obs("build_forward[prefilter=None].find", "find", json!(opt_to_i(x)), 0, false));
+    // C10: the same search under other byte-frequency rankers (prefilter automatic)
+    for kind in [2usize, 3, 5] {
+        let (name, table) = crate::r_mm::ranker(kind, &n, 1);
+        let fb = memmem::FinderBuilder::new().build_forward_with_ranker(table, &n);
+        o.push(obs(&format!("build_forward_with_ranker[{name}].find"), "find", json!(opt_to_i(fb.find(&h))), 0, false));
+        o.push(obs(&format!("build_forward_with_ranker[{name}].find_iter"), "fwd", json!(fwd(&mut fb.find_iter(&h), cap)), 0, false));
+    }
     o.push(obs("memmem::find_iter", "fwd", json!(fwd(&mut memmem::find_iter(&h, &n), cap)), 0, false));
     o.push(obs("memmem::rfind_iter", "rev", json!(fwd(&mut memmem::rfind_iter(&h, &n), cap)), 0, false));
     o.push(obs("Finder::find_iter", "fwd", json!(fwd(&mut f.find_iter(&h), cap)), 0, false));
@@ -471,6 +508,103 @@ pub fn conc_child(path: &str, threads: usize, seed: u64, rounds: usize) {
         let mut g = all.lock().unwrap();
         g.push(json!({"k": "conc-shared", "n": needle, "h": short, "obs": o_short, "routes": [], "tid": -1}));
         g.push(json!({"k": "conc-shared", "n": needle, "h": long, "obs": o_long, "routes": [], "tid": -1}));
+    }
+    // shared finder with a long needle (Two-Way + adaptive prefilter): one thread makes the prefilter give up on a hostile
+    // haystack (a candidate at every position) while the others are in the middle of searches that still have the match
+    // ahead; a fresh finder per round, the start of the hostile search swept across the others' searches, many rounds per
+    // (needle, haystack) pair so that one record carries all of them
+    for pairno in 0..2usize {
+        let nl = 33 + r.below(24);
+        let mut needle: Vec<u8> = (0..nl).map(|_| b"ab"[r.below(2)]).collect();
+        let i1 = r.below(nl);
+        let mut i2 = r.below(nl);
+        if i2 == i1 {
+            i2 = (i1 + 1) % nl;
+        }
+        needle[i1] = b'Q';
+        needle[i2] = b'Q';
+        let hostile = vec![b'Q'; 600 + r.below(100)];
+        // ~150 false candidates that each skip far enough for the prefilter to stay effective, then the only occurrence
+        let mut target: Vec<u8> = Vec::new();
+        for _ in 0..(if cfg!(miri) { 6 } else { 120 + r.below(60) }) {
+            let mut near = needle.clone();
+            let mut k = r.below(nl);
+            while k == i1 || k == i2 {
+                k = (k + 1) % nl;
+            }
+            near[k] = b'-';
+            target.extend(near);
+            target.extend(std::iter::repeat(b'-').take(r.below(24)));
+        }
+        target.extend_from_slice(&needle);
+        target.extend(std::iter::repeat(b'-').take(r.below(4)));
+        let mut hostile = hostile;
+        if pairno == 0 {
+            // the tight-loop shape: the two rare bytes are adjacent at the start of the needle, a false candidate every
+            // 24..40 bytes is rejected at the first comparison, and the hostile haystack has a candidate every 2 bytes
+            let (x, y) = ([b'q', b'Q', b'#'][r.below(3)], [b'z', b'Z', b'~'][r.below(3)]);
+            needle = vec![x, y];
+            needle.extend(std::iter::repeat(b'a').take(31 + r.below(20)));
+            let gap = 22 + r.below(18);
+            target.clear();
+            for _ in 0..(if cfg!(miri) { 10 } else { 150 + r.below(100) }) {
+                target.extend_from_slice(&[x, y]);
+                target.extend(std::iter::repeat(b'-').take(gap));
+            }
+            target.extend_from_slice(&needle);
+            hostile = [x, y].iter().copied().cycle().take(900 + r.below(200)).collect();
+        }
+        let mut seen_t: std::collections::BTreeSet<(usize, i64)> = Default::default();
+        let mut seen_h: std::collections::BTreeSet<(usize, i64)> = Default::default();
+        for round in 0..rounds * (if cfg!(miri) { 3 } else { 8 }) {
+            let finder = memmem::Finder::new(&needle);
+            let bar = Barrier::new(threads);
+            let res: Mutex<Vec<(usize, bool, i64)>> = Mutex::new(Vec::new());
+            let hostile_done = std::sync::atomic::AtomicBool::new(false);
+            std::thread::scope(|s| {
+                for tid in 0..threads {
+                    let (finder, bar, res, hostile, target, hostile_done) = (&finder, &bar, &res, &hostile, &target, &hostile_done);
+                    s.spawn(move || {
+                        bar.wait();
+                        if tid == 0 {
+                            // sweep the start of the hostile search across the others' searches
+                            for _ in 0..(round % 61) * 10 {
+                                std::hint::spin_loop();
+                            }
+                            let a = opt_to_i(finder.find(hostile));
+                            hostile_done.store(true, std::sync::atomic::Ordering::Release);
+                            res.lock().unwrap().push((tid, true, a));
+                        } else {
+                            // keep searching until the hostile search has come and gone, so that it lands inside one of these
+                            let mut mine = Vec::new();
+                            for _ in 0..(if cfg!(miri) { 3 } else { 64 }) {
+                                let was_done = hostile_done.load(std::sync::atomic::Ordering::Acquire);
+                                mine.push(opt_to_i(finder.find(target)));
+                                if was_done {
+                                    break;
+                                }
+                            }
+                            let mut g = res.lock().unwrap();
+                            for b in mine {
+                                g.push((tid, false, b));
+                            }
+                        }
+                    });
+                }
+            });
+            for (tid, hst, v) in res.into_inner().unwrap() {
+                if hst {
+                    seen_h.insert((tid, v));
+                } else {
+                    seen_t.insert((tid, v));
+                }
+            }
+        }
+        let o_t: Vec<Value> = seen_t.iter().map(|(tid, v)| obs(&format!("t{tid}.shared long-needle Finder::find while t0 exhausts the prefilter (pair {pairno})"), "find", json!(v), 0, false)).collect();
+        let o_h: Vec<Value> = seen_h.iter().map(|(tid, v)| obs(&format!("t{tid}.shared long-needle Finder::find on the hostile haystack (pair {pairno})"), "find", json!(v), 0, false)).collect();
+        let mut g = all.lock().unwrap();
+        g.push(json!({"k": "conc-shared", "n": needle, "h": target, "obs": o_t, "routes": [], "tid": -1}));
+        g.push(json!({"k": "conc-shared", "n": needle, "h": hostile, "obs": o_h, "routes": [], "tid": -1}));
     }
     let mut f = std::io::BufWriter::new(std::fs::File::create(path).unwrap());
     for v in all.lock().unwrap().iter() {
